@@ -189,8 +189,8 @@ PROPS = {
                        "label-wise suffix, cuts off exactly its octets and leaves a valid name, and leaves the name alone when it refuses. "
                        "UncertainName::is_slice_absolute (the check behind UncertainName::from_octets) accepts exactly the valid absolute names "
                        "of at most 255 octets and the valid non-empty relative names of at most 254 (this contract exposed D50).",
-        "not_covered": "Presentation-text round trip (Display/FromStr: core::fmt and char iterators), append_name/append_origin/"
-                       "append_symbols (label iterators), Chain beyond its length check, UncertainName beyond is_slice_absolute, slice/range with general RangeBounds (searched natively only; split, truncate and strip_suffix of Name / RelativeName are under contract), "
+        "not_covered": "Presentation-text round trip (Display/FromStr: core::fmt and char iterators), append_symbols / append_chars (symbol iterators; append_name and append_origin are under contract over a modelled label iterator: "
+                       "the open label is closed first, the result is a valid relative / absolute name or LongName exactly past 254 / 255 octets), Chain beyond its length check, UncertainName beyond is_slice_absolute, slice/range with general RangeBounds (searched natively only; split, truncate and strip_suffix of Name / RelativeName are under contract), "
                        "the text parsers of Name / RelativeName (FromStr, from_chars). The zone-file reader's name conversion is under contract in unit zfsource (C07: scan_name hands out valid names only). Builders that refuse to grow (ShortBuf) are outside the contracts (D13).",
         "assumptions": [
             "OctetsBuilder + AsRef<[u8]> + AsMut<[u8]> are modelled by one prelude trait (append_slice appends or fails unchanged; as_mut keeps the length)",
